@@ -90,9 +90,38 @@ let scan_case hex sizes =
        | OutOfFuel -> print_endline "S fuel")
   | _ -> print_endline "S header"
 
+(* `r Ss Se Al eobrun nblocks | bits16 | vals | coefficients | hex | sizes` : AC refinement scan units *)
+let refine_case hd bits vals coefs hex sizes =
+  match List.map int_of_string (List.tl (words hd)) with
+  | [ ss; se; al; eob; nb ] ->
+      let tbl = derive_dtbl (zl (0 :: ints bits)) (zl (ints vals)) in
+      let cfg = { c_ss = nat_of_int ss; c_se = nat_of_int se; c_al = z_of_int al; c_tbl = tbl } in
+      let cl = ints coefs in
+      let blocks = List.init nb (fun i -> zl (take 64 (drop (64 * i) cl))) in
+      let bytes = hexbytes (String.trim hex) in
+      let cs = List.map zl (chunks (ints sizes) bytes) in
+      let show s buf =
+        let all = s.q_done @ s.q_todo in
+        let hexz z = (* 64-bit register as hex *)
+          let rec go z acc n = if n = 0 then acc else
+            let (q, r) = (Z.div z (z_of_int 16), Z.modulo z (z_of_int 16)) in
+            go q (Printf.sprintf "%x" (int_of_z r) ^ acc) (n - 1) in
+          let sx = go z "" 16 in
+          let i = ref 0 in while !i < 15 && sx.[!i] = '0' do incr i done; String.sub sx !i (16 - !i) in
+        Printf.printf "R done=%d eob=%d bl=%d gb=%s um=%d consumed=%d |%s\n" (List.length s.q_done) (int_of_z s.q_eob) (int_of_z s.q_bl)
+          (hexz s.q_gb) (int_of_z s.q_um) (List.length bytes - List.length buf)
+          (String.concat "" (List.map (fun b -> String.concat "" (List.map (fun v -> " " ^ string_of_int (int_of_z v)) b)) all)) in
+      (match run_refine cfg cs (qinit (z_of_int eob) blocks) with
+       | Halted (s, buf) -> show s buf
+       | Susp (s, buf, _) -> show s buf
+       | Failed _ -> print_endline "R corrupt"
+       | OutOfFuel -> print_endline "R fuel")
+  | _ -> print_endline "?"
+
 let () = iter_lines (fun line ->
   match fields line with
   | [ "s"; hex; sizes ] -> scan_case hex (ints sizes)
+  | [ hd; bits; vals; coefs; hex; sizes ] when String.length hd > 1 && hd.[0] = 'r' -> refine_case hd bits vals coefs hex sizes
   | [ hd; hex; sizes ] ->
       (match words hd with
        | [ "m"; sv ] ->
